@@ -14,11 +14,13 @@ def run(tier, seed, replay=None, pid=PID, focus=FOCUS):
     rng = random.Random(seed + (0 if pid == "C05" else 1))
     walks, exprs = [], []
     dist, nobj, ncalls, raised = {}, 0, 0, {}
-    for k in range(nwalks):
+    ncov = 4 if tier == "quick" else 12          # scripted walks in which EVERY operation occurs (history.coverage_script), in each dtype
+    for k in range(nwalks + ncov):
         s = rng.randrange(1 << 30)
         dtype = rng.choice([torch.float64, torch.float64, torch.float64, torch.float32, torch.complex128])
+        if k >= nwalks: dtype = [torch.float64, torch.complex128, torch.float32, torch.float64][(k - nwalks) % 4]
         torch.manual_seed(s)
-        w = history.run_walk(s, length, dtype)
+        w = history.run_walk(s, length, dtype, script=history.coverage_script() if k >= nwalks else None)
         walks.append((s, dtype, w))
         nobj += len(w.pool); ncalls += len(w.log)
         for nm in w.log:
